@@ -251,7 +251,8 @@ def _tcls(spec):
 def sc_telnet(spec, can, res, R):
     good = spec.get("variant", "ok") == "ok"
     inner = CliDevice("generic", hostname="r1")
-    dev = LoginDevice(inner, mode="telnet", username=can["USR"].full, password=can["PW"].full if good else "other-pw")
+    dev = LoginDevice(inner, mode="telnet", username=can["USR"].full, password=can["PW"].full if good else "other-pw",
+                      retry="password" if spec.get("variant") == "badrepass" else "default", max_tries=9)
     tname = "telnet" if spec["stack"] == "sync" else "asynctelnet"
     # (asyncio login loop polls with wait_for(read, timeout_ops / 20): it needs a non-zero timeout_ops)
     extra = dict(timeout_ops=5) if spec["stack"] == "async" else {}
@@ -282,8 +283,9 @@ def _with(conn, R):
 def sc_ssh(spec, can, res, R):
     v = spec.get("variant", "ok")
     inner = CliDevice("generic", hostname="r1")
-    dev = LoginDevice(inner, mode="ssh", username=can["USR"].full, host="sim",
-                      password=can["PW"].full if v != "badpw" else "other-pw",
+    dev = LoginDevice(inner, mode="ssh", username=can["USR"].full, host="sim", max_tries=9,
+                      deny_text="Access denied" if v == "badpwquiet" else "Permission denied, please try again.",
+                      password=can["PW"].full if v not in ("badpw", "badpwquiet") else "other-pw",
                       passphrase=(can["PP"].full if v in ("phrase", "badpw") else "other-phrase" if v == "badphrase" else None))
     if spec["stack"] == "sync":
         conn, t = make_conn("generic", dev, "sync", faults=_faults(spec), transport_cls=_tcls(spec),
